@@ -5,10 +5,14 @@ package main
 // (harness/l1ops.go L1Obs) and the scripted-step helpers.
 
 import (
+	"bytes"
 	"encoding/hex"
 	"fmt"
 	"math/big"
 	"strings"
+
+	"cosmossdk.io/math"
+	sdk "github.com/cosmos/cosmos-sdk/types"
 )
 
 // ---- typed view of one L1 observation ----
@@ -178,7 +182,137 @@ type MoneyStream struct {
 	Widen    func(tr *L1Track)
 	Monitors []L1Monitor
 	Extra    func(emit func(build L1Builder), tier int) // further fully scripted cases (exhaustive parts)
+	Prep     func(sc *L1Scenario)                       // applied to the fresh instance of BOTH passes before the initial snapshot
+	Spice    func(sc *L1Scenario)                       // extra step interleaved with the random steps
+	SpicePct int
 	Rule     string
+}
+
+// the trees successfully proposed in the case the monitors are looking at (set by the driver)
+var curTrees []*ProposedTree
+
+// runL1TwicePrep is RunL1Twice with a preparation of the initial state (e.g. extra funds) that is
+// applied identically to the generating and to the observing instance and is part of the snapshot.
+func runL1TwicePrep(seed uint64, id int, prep func(sc *L1Scenario), build L1Builder, rep *Report) *L1Case {
+	mk := func() *L1Scenario {
+		sc := NewL1Scenario(seed, id, nil)
+		if prep != nil {
+			prep(sc)
+			sc.Case.Bals = nil
+			sc.Case.Snapshot()
+		}
+		return sc
+	}
+	sc := mk()
+	build(sc)
+	sc2 := mk()
+	sc2.Case.Track = sc.Case.Track
+	sc2.Env.Table = sc.Env.Table
+	sc2.Case.Parse = sc.Case.Parse
+	sc2.Case.Bals = nil
+	sc2.Case.Snapshot() // with the final tracked account list
+	for i, o := range sc.Case.Ops {
+		r := sc2.Case.DoObs(o)
+		if r.OK != sc.Case.Results[i].OK {
+			rep.Violate(Violation{Case: id, Step: i, What: "the same history gave different verdicts on two fresh instances", Sig: "nondeterministic-verdict", Ops: l1OpsHuman(sc.Case.Ops[:i+1])})
+		}
+	}
+	curTrees = sc.Trees
+	return sc2.Case
+}
+
+var two64 = new(big.Int).Lsh(big.NewInt(1), 64)
+
+// whalePrep gives user 7 more than 2^66 of every denom, so that an escrow can hold more than 2^64
+func whalePrep(sc *L1Scenario) {
+	var cs sdk.Coins
+	for _, d := range sc.Denoms {
+		cs = append(cs, sdk.NewCoin(d, math.NewIntFromBigInt(new(big.Int).Lsh(big.NewInt(1), 66))))
+	}
+	sc.Env.Fund(sc.Env.User(7).Addr, cs.Sort())
+}
+
+// fundBig puts more than 2^64 of two denoms into the escrow of b: a donation of 2^65 and two
+// deposits of 2^64-1 (the largest amount a deposit may carry)
+func (sc *L1Scenario) fundBig(b uint64) {
+	sc.do(L1Op{Kind: "send", FromID: 7, ToID: EscrowBase + b, Denom: sc.Denoms[0], Amt: new(big.Int).Lsh(big.NewInt(1), 65)})
+	max := new(big.Int).Sub(two64, big.NewInt(1))
+	for k := 0; k < 2; k++ {
+		sc.reg(sc.Env.User(7).Str)
+		sc.do(L1Op{Kind: "deposit", Sender: sc.Env.User(7).Str, Bridge: b, To: "l2recipient", Denom: sc.Denoms[1], Amt: new(big.Int).Set(max)})
+	}
+}
+
+// variantStep resubmits withdrawals in other spellings: a PAID claim with the recipient in upper-case
+// bech32 (same account, other string), or a claim of a proposed tree with amount + k*2^64 (same
+// low 64 bits); sometimes it first donates 2^65 to an escrow so that such an amount is payable.
+func (sc *L1Scenario) variantStep() {
+	e, r, c := sc.Env, sc.R, sc.Case
+	sub := e.User(uint64(1 + r.Intn(7))).Str
+	switch r.Weighted([]int{50, 35, 15}) {
+	case 0:
+		var paid []int
+		for i, o := range c.Ops {
+			if o.Kind == "finalize" && c.Results[i].OK && upperBech32(o.To) != o.To {
+				paid = append(paid, i)
+			}
+		}
+		if len(paid) == 0 {
+			return
+		}
+		o := c.Ops[paid[r.Intn(len(paid))]]
+		o.To = upperBech32(o.To)
+		if _, ok := e.Resolve(o.To); !ok {
+			return
+		}
+		o.Sender = sub
+		sc.reg(sub)
+		c.Do(sc.op(o))
+	case 1:
+		if len(sc.Trees) == 0 {
+			return
+		}
+		pt := sc.Trees[r.Intn(len(sc.Trees))]
+		op := sc.Claim(pt, r.Intn(len(pt.Tree.Ws)), sub)
+		op.Amt = new(big.Int).Add(op.Amt, new(big.Int).Mul(two64, big.NewInt(int64(1+r.Intn(2)))))
+		c.Do(op)
+	case 2:
+		ex := sc.existingBridges()
+		if len(ex) == 0 {
+			return
+		}
+		sc.do(L1Op{Kind: "send", FromID: 7, ToID: EscrowBase + ex[r.Intn(len(ex))], Denom: sc.Denoms[r.Intn(len(sc.Denoms))], Amt: new(big.Int).Lsh(big.NewInt(1), 65)})
+	}
+}
+
+// provenLeafMonitor: every accepted finalization must pay exactly a withdrawal that is a leaf of a
+// tree proposed under the output root the message names - same bridge, sequence, sender string,
+// recipient string, denom and amount.  Model-free: the trees are the ones the harness built.
+func provenLeafMonitor(prop string) L1Monitor {
+	return func(rep *Report, c *L1Case) {
+		for i, o := range c.Ops {
+			if o.Kind != "finalize" || !viewL1(c.Obs[i]).OK() {
+				continue
+			}
+			found := false
+			if len(o.Version) == 1 {
+				root := outputRootOf(o.Version[0], o.SRoot, o.BHash)
+				for _, pt := range curTrees {
+					if !bytes.Equal(pt.Root, root) {
+						continue
+					}
+					for _, w := range pt.Tree.Ws {
+						if w.Bridge == o.Bridge && w.Seq == o.Seq && w.From == o.From && w.To == o.To && w.Denom == o.Denom && w.Amt.Cmp(o.Amt) == 0 {
+							found = true
+						}
+					}
+				}
+			}
+			if !found {
+				l1Violate(rep, c, i, prop+":paid-unproven-withdrawal", fmt.Sprintf("bridge %d paid %s%s to %s for sequence %d, but no tree proposed under the named output root has that withdrawal as a leaf", o.Bridge, o.Amt, o.Denom, o.To, o.Seq))
+			}
+		}
+	}
 }
 
 func runMoneyStream(cfg MoneyStream, seed uint64, tier string, outdir string) *Report {
@@ -192,7 +326,7 @@ func runMoneyStream(cfg MoneyStream, seed uint64, tier string, outdir string) *R
 	id := 0
 	emit := func(build L1Builder) {
 		id++
-		c := RunL1Twice(seed*100000+uint64(id), id, func(sc *L1Scenario) {
+		c := runL1TwicePrep(seed*100000+uint64(id), id, cfg.Prep, func(sc *L1Scenario) {
 			sc.wts = cfg.Weights
 			if cfg.Widen != nil {
 				cfg.Widen(sc.Case.Track)
@@ -233,6 +367,9 @@ func runMoneyStream(cfg MoneyStream, seed uint64, tier string, outdir string) *R
 				s(sc, ti)
 				for i := 0; i < cfg.Len[ti]/3; i++ {
 					sc.RandomStep()
+					if cfg.Spice != nil && sc.R.Chance(cfg.SpicePct) {
+						cfg.Spice(sc)
+					}
 				}
 			})
 		}
@@ -241,6 +378,9 @@ func runMoneyStream(cfg MoneyStream, seed uint64, tier string, outdir string) *R
 		emit(func(sc *L1Scenario) {
 			for i := 0; i < cfg.Len[ti]; i++ {
 				sc.RandomStep()
+				if cfg.Spice != nil && sc.R.Chance(cfg.SpicePct) {
+					cfg.Spice(sc)
+				}
 			}
 		})
 	}
